@@ -4,6 +4,7 @@ Property theorems over Model/MatchTime.lean.
 -/
 import PartituraModel.Model.MatchTime
 import PartituraModel.Proofs.C08
+import PartituraModel.Proofs.Round
 
 namespace C08
 open Model Model.MatchTime C08P
@@ -190,5 +191,292 @@ example : ValidAlignment [⟨.match_, some 0, some 0⟩, ⟨.deletion, some 1, n
     · cases hk
     · cases hp; decide
     · cases hk
+
+
+/-! ### score times: measure:beat + offset and back -/
+
+/-- What the exporter writes for a note `rel` divisions after its bar line denotes exactly that
+    distance: whole beats (of the time signature's beat type) plus the offset fraction, read as the
+    importer reads them, is `rel/divs` quarters — for every division value, beat type and distance;
+    the beat number is at least 1 and the offset is a non-negative fraction of one beat. -/
+theorem enc_position (divs den : Nat) (hd : 0 < divs) (hn : 0 < den) (rel : Int) (hr : 0 ≤ rel) :
+    notePos 0 (encBeat divs den rel + 1) den (Frac.ofRat (encOffset divs den rel)).val 0 = (rel : Rat) / (divs : Rat)
+    ∧ 1 ≤ encBeat divs den rel + 1
+    ∧ 0 ≤ encOffset divs den rel ∧ encOffset divs den rel < 1 / (den : Rat) := by
+  have hrange := C08P.enc_offset_range divs den hd hn rel
+  refine ⟨?_, ?_, hrange.1, hrange.2⟩
+  · unfold notePos
+    rw [C08P.Frac.ofRat_val _ hrange.1]
+    have := C08P.enc_position divs den hd hn rel
+    simp only [add_sub_cancel_right, zero_add, sub_zero]
+    exact this
+  · have := C08P.encBeat_nonneg divs den hd rel hr
+    omega
+
+/-- **position_roundtrip.** A note `rel` divisions after the start of its measure, written by the
+    exporter (beat, offset) and read by the importer with ANY divisions value `D`: if the bar start the
+    importer reconstructed (`bhat − shiftHat`, in quarters from the loaded origin) is within `1/(2D)` of
+    the written one (`barQ − shiftQ`), and the true position is on the importer's division grid
+    (`D · position = z`), then the loaded onset is exactly `z` — for all onsets, measures, signatures. -/
+theorem position_roundtrip (D divs den : Nat) (hd : 0 < divs) (hn : 0 < den) (rel : Int)
+    (bhat shiftHat barQ shiftQ : Rat) (z : Int)
+    (hgrid : (D : Rat) * (barQ + (rel : Rat) / (divs : Rat) - shiftQ) = (z : Rat))
+    (hbar : (D : Rat) * |(bhat - shiftHat) - (barQ - shiftQ)| < 1 / 2) :
+    roundHalfEven ((D : Rat) * notePos bhat (encBeat divs den rel + 1) den
+        (Frac.ofRat (encOffset divs den rel)).val shiftHat) = z := by
+  apply roundHalfEven_near
+  have hrange := C08P.enc_offset_range divs den hd hn rel
+  have hpos := C08P.enc_position divs den hd hn rel
+  unfold notePos
+  rw [C08P.Frac.ofRat_val _ hrange.1]
+  have hD : (0 : Rat) ≤ (D : Rat) := by positivity
+  have e : (D : Rat) * (bhat + ((encBeat divs den rel + 1 - 1 : Int) : Rat) * 4 / (den : Rat)
+      + 4 * encOffset divs den rel - shiftHat) - (z : Rat)
+      = (D : Rat) * ((bhat - shiftHat) - (barQ - shiftQ)) := by
+    rw [← hgrid, ← hpos]
+    simp only [add_sub_cancel_right]
+    ring
+  rw [e, abs_mul, abs_of_nonneg hD]
+  exact hbar
+
+/-- non-vacuity: 6/8 (beat type 8), 2 divisions per quarter, the note 9 divisions into the piece in a bar
+    starting at division 6 (`rel = 3`): written `beat 4, offset 0`; read back with 8 divisions per quarter and a
+    bar start that is off by 1/20000 quarter it lands exactly on division 36 = 8 · 9/2 -/
+example : roundHalfEven ((8 : Nat) * notePos (3 + 1/20000) (encBeat 2 8 3 + 1) 8 (Frac.ofRat (encOffset 2 8 3)).val 0) = 36 := by
+  have := position_roundtrip 8 2 8 (by decide) (by decide) 3 (3 + 1/20000) 0 3 0 36 (by norm_num) (by norm_num [abs_of_nonneg])
+  simpa using this
+
+/-- **duration_roundtrip.** The duration the exporter writes (`d/(4·divs)` of a whole note, reduced) gives
+    back `D·d/divs` divisions — the same number of quarters — whenever the written denominator divides `D`
+    (which `divs_sufficient` guarantees for the importer's divisions). -/
+theorem duration_roundtrip (D divs : Nat) (d : Int) (hd0 : 0 ≤ d) (hdivs : 0 < divs)
+    (hdvd : (encDur divs d).den ∣ 4 * D) :
+    ((durDivs D (Frac.ofRat (encDur divs d)) : Int) : Rat) = (D : Rat) * (d : Rat) / (divs : Rat) := by
+  have hnn : 0 ≤ encDur divs d := by
+    rw [C08P.encDur_eq]
+    apply div_nonneg
+    · exact_mod_cast hd0
+    · positivity
+  unfold durDivs
+  rw [C08P.Frac.ofRat_val _ hnn]
+  obtain ⟨k, hk⟩ := hdvd
+  have hden : ((encDur divs d).den : Rat) ≠ 0 := by exact_mod_cast (encDur divs d).den_nz
+  have hval : (D : Rat) * 4 * encDur divs d = (((k : Int) * (encDur divs d).num : Int) : Rat) := by
+    have h1 : encDur divs d * ((encDur divs d).den : Rat) = ((encDur divs d).num : Rat) := Rat.mul_den_eq_num _
+    have h2 : (4 : Rat) * (D : Rat) = ((encDur divs d).den : Rat) * (k : Rat) := by exact_mod_cast hk
+    calc (D : Rat) * 4 * encDur divs d = (4 * (D : Rat)) * encDur divs d := by ring
+      _ = (k : Rat) * (encDur divs d * ((encDur divs d).den : Rat)) := by rw [h2]; ring
+      _ = (((k : Int) * (encDur divs d).num : Int) : Rat) := by rw [h1]; push_cast; ring
+  have hknn : 0 ≤ (k : Int) * (encDur divs d).num := by
+    apply mul_nonneg
+    · positivity
+    · exact Rat.num_nonneg.mpr hnn
+  rw [hval, C08P.truncRat_int _ hknn, ← hval, C08P.encDur_eq]
+  have h4 : ((divs : Nat) : Rat) ≠ 0 := by exact_mod_cast (Nat.pos_iff_ne_zero.mp hdivs)
+  push_cast
+  field_simp
+
+/-- non-vacuity: a dotted quarter (3 of 2 divisions per quarter) read with 8 divisions per quarter: 12 -/
+example : durDivs 8 (Frac.ofRat (encDur 2 3)) = 12 := by decide +kernel
+
+/-- **divs_sufficient.** With `D` = the importer's divisions (lcm over all notes of
+    `max(beat_type/4, 1) · denominator · tuple divisor` of offset and duration): for every note, `D` times
+    the offset and `D` times the duration (in quarters) are integers, and so is `D` times any whole number
+    of beats when the beat type divides 4 or is a multiple of 4. -/
+theorem divs_sufficient (ts : List TSLine) (maxTime : Rat) (ns : List SNote)
+    (hpos : ∀ n ∈ ns, 0 < n.offset.den ∧ 0 < n.offset.tup ∧ 0 < n.dur.den ∧ 0 < n.dur.tup) :
+    ∀ n ∈ ns,
+      (∃ z : Int, (importDivs ts maxTime ns : Rat) * (4 * n.offset.val) = z)
+      ∧ (∃ z : Int, (importDivs ts maxTime ns : Rat) * (4 * n.dur.val) = z)
+      ∧ (∀ k : Int, (denAtBeats ts maxTime n.onsetB ∣ 4 ∨ 4 ∣ denAtBeats ts maxTime n.onsetB) →
+            0 < denAtBeats ts maxTime n.onsetB →
+            ∃ z : Int, (importDivs ts maxTime ns : Rat) * ((k : Rat) * 4 / (denAtBeats ts maxTime n.onsetB : Rat)) = z) := by
+  intro n hn
+  obtain ⟨h1, h2, h3, h4⟩ := hpos n hn
+  set D := importDivs ts maxTime ns with hD
+  set bt := denAtBeats ts maxTime n.onsetB with hbt
+  have hm1 : max (bt / 4) 1 * n.offset.den * n.offset.tup ∣ D := by
+    apply C08P.dvd_natLcm
+    rw [List.mem_flatMap]
+    exact ⟨n, hn, by simp [hbt]⟩
+  have hm2 : max (bt / 4) 1 * n.dur.den * n.dur.tup ∣ D := by
+    apply C08P.dvd_natLcm
+    rw [List.mem_flatMap]
+    exact ⟨n, hn, by simp [hbt]⟩
+  have frac_int : ∀ (m : Nat) (f : Frac), 0 < f.den → 0 < f.tup → m * f.den * f.tup ∣ D →
+      ∃ z : Int, (D : Rat) * (4 * f.val) = z := by
+    intro m f hf1 hf2 hdv
+    obtain ⟨c, hc⟩ := hdv
+    refine ⟨4 * (f.num : Int) * (m : Int) * (c : Int), ?_⟩
+    unfold Frac.val
+    have e1 : ((f.den : Nat) : Rat) ≠ 0 := by exact_mod_cast (Nat.pos_iff_ne_zero.mp hf1)
+    have e2 : ((f.tup : Nat) : Rat) ≠ 0 := by exact_mod_cast (Nat.pos_iff_ne_zero.mp hf2)
+    have hc' : (D : Rat) = (m : Rat) * (f.den : Rat) * (f.tup : Rat) * (c : Rat) := by exact_mod_cast hc
+    rw [hc']
+    push_cast
+    field_simp
+  refine ⟨frac_int _ n.offset h1 h2 hm1, frac_int _ n.dur h3 h4 hm2, ?_⟩
+  intro k hdiv hbtpos
+  have hk1 : max (bt / 4) 1 ∣ D := (Dvd.intro _ rfl : max (bt / 4) 1 ∣ max (bt / 4) 1 * (n.offset.den * n.offset.tup)).trans
+    (by rw [← Nat.mul_assoc]; exact hm1)
+  have hbtne : ((bt : Nat) : Rat) ≠ 0 := by exact_mod_cast (Nat.pos_iff_ne_zero.mp hbtpos)
+  rcases hdiv with hd4 | h4d
+  · obtain ⟨c, hc⟩ := hd4
+    refine ⟨(D : Int) * k * (c : Int), ?_⟩
+    have hc' : (4 : Rat) = (bt : Rat) * (c : Rat) := by exact_mod_cast hc
+    push_cast
+    rw [hc']
+    field_simp
+  · obtain ⟨c, hc⟩ := h4d
+    have hcpos : 0 < c := by
+      rcases Nat.eq_zero_or_pos c with h0 | h0
+      · rw [h0] at hc; omega
+      · exact h0
+    have hq : bt / 4 = c := by rw [hc]; simp
+    have hmax : max (bt / 4) 1 = c := by rw [hq]; exact Nat.max_eq_left hcpos
+    rw [hmax] at hk1
+    obtain ⟨e, he⟩ := hk1
+    refine ⟨(e : Int) * k, ?_⟩
+    have hbt' : ((bt : Nat) : Rat) = 4 * (c : Rat) := by exact_mod_cast hc
+    have hD' : ((D : Nat) : Rat) = (c : Rat) * (e : Rat) := by exact_mod_cast he
+    have hcne : (c : Rat) ≠ 0 := by exact_mod_cast (Nat.pos_iff_ne_zero.mp hcpos)
+    rw [hbt', hD']
+    push_cast
+    field_simp
+
+/-- non-vacuity: a 6/8 note on beat 4 with offset 1/16 and duration 3/8: divisions = lcm(2·16, 2·8) = 32 -/
+example : importDivs [⟨0, 1, 6, 8⟩] 6
+    [{ measure := 1, beat := 4, offset := ⟨1, 16, 1⟩, dur := ⟨3, 8, 1⟩, comps := [], onsetB := 3, offsetB := 6 }] = 32 := by
+  decide +kernel
+
+/-! ### bar starts -/
+
+/-- **bars_recovered_partial.** (Partial: proved for scores whose time signatures all have ONE beat type
+    `den0` — any number of changes of the beat count; with mixed beat types the importer's beats→quarters map
+    is compared with the implementation but its error bound is not proved.)
+
+    Let a bar start `rel₁` divisions before its first stored note, whose beat time `B` the file holds with four
+    decimals.  The bar start the importer computes from that note (`barTime`) differs from the true one
+    (`4·B/den0 − rel₁/divs` quarters after beat 0) by at most `1/(5000·den0)` quarter; hence with importer
+    divisions `D < 2500·den0` and a bar line on the division grid, the loaded bar line
+    `round(D·(barTime − shift))` is exactly the written one. -/
+theorem bars_recovered_partial (den0 divs : Nat) (hden : 0 < den0) (hdivs : 0 < divs)
+    (ts : List TSLine) (hts : ts ≠ []) (huni : ∀ x ∈ ts, x.den = den0) (maxTime : Rat)
+    (rel₁ : Int) (B : Rat) (n : SNote)
+    (hbeat : n.beat = encBeat divs den0 rel₁ + 1)
+    (hoff : n.offset = Frac.ofRat (encOffset divs den0 rel₁))
+    (hon : n.onsetB = dec4 B) :
+    |barTime ts maxTime n - (4 * B / (den0 : Rat) - (rel₁ : Rat) / (divs : Rat))| ≤ 1 / (5000 * (den0 : Rat))
+    ∧ ∀ (D : Nat) (shiftQ : Rat) (z : Int), (D : Rat) < 2500 * (den0 : Rat) →
+        (D : Rat) * (4 * B / (den0 : Rat) - (rel₁ : Rat) / (divs : Rat) - shiftQ) = (z : Rat) →
+        roundHalfEven ((D : Rat) * (barTime ts maxTime n - shiftQ)) = z := by
+  have hd0 : (0 : Rat) < (den0 : Rat) := by exact_mod_cast hden
+  have hrange := C08P.enc_offset_range divs den0 hdivs hden rel₁
+  have hpos := C08P.enc_position divs den0 hdivs hden rel₁
+  have hbar : barTime ts maxTime n = 4 * dec4 B / (den0 : Rat) - (rel₁ : Rat) / (divs : Rat) := by
+    unfold barTime
+    rw [C08P.beatsToQuarters_uniform den0 ts huni hts, C08P.denAtBeats_uniform den0 ts huni hts, hbeat, hoff, hon,
+      C08P.Frac.ofRat_val _ hrange.1, ← hpos]
+    simp only [add_sub_cancel_right]
+    ring
+  have hclose := C08P.dec4_close B
+  have herr : |barTime ts maxTime n - (4 * B / (den0 : Rat) - (rel₁ : Rat) / (divs : Rat))| ≤ 1 / (5000 * (den0 : Rat)) := by
+    rw [hbar]
+    have e : 4 * dec4 B / (den0 : Rat) - (rel₁ : Rat) / (divs : Rat) - (4 * B / (den0 : Rat) - (rel₁ : Rat) / (divs : Rat))
+        = (dec4 B - B) * (4 / (den0 : Rat)) := by ring
+    have h4d : (0 : Rat) < 4 / (den0 : Rat) := div_pos (by norm_num) hd0
+    rw [e, abs_mul, abs_of_pos h4d]
+    calc |dec4 B - B| * (4 / (den0 : Rat)) ≤ (1 / 20000) * (4 / (den0 : Rat)) := by
+          apply mul_le_mul_of_nonneg_right hclose (le_of_lt h4d)
+      _ = 1 / (5000 * (den0 : Rat)) := by field_simp; ring
+  refine ⟨herr, ?_⟩
+  intro D shiftQ z hD hz
+  apply roundHalfEven_near
+  have e : (D : Rat) * (barTime ts maxTime n - shiftQ) - (z : Rat)
+      = (D : Rat) * (barTime ts maxTime n - (4 * B / (den0 : Rat) - (rel₁ : Rat) / (divs : Rat))) := by
+    rw [← hz]; ring
+  have hDnn : (0 : Rat) ≤ (D : Rat) := by positivity
+  rw [e, abs_mul, abs_of_nonneg hDnn]
+  calc (D : Rat) * |barTime ts maxTime n - (4 * B / (den0 : Rat) - (rel₁ : Rat) / (divs : Rat))|
+        ≤ (D : Rat) * (1 / (5000 * (den0 : Rat))) := mul_le_mul_of_nonneg_left herr hDnn
+    _ < (2500 * (den0 : Rat)) * (1 / (5000 * (den0 : Rat))) := by
+        apply mul_lt_mul_of_pos_right hD (div_pos one_pos (by linarith))
+    _ = 1 / 2 := by field_simp; ring
+
+/-- non-vacuity: 3/4 then 4/4 (one beat type, a change of the beat count), a bar whose first stored note is
+    a triplet eighth (1 of 3 divisions) after the bar line at beat 3 -/
+example : ∃ n : SNote, n.beat = encBeat 3 4 1 + 1 ∧ n.offset = Frac.ofRat (encOffset 3 4 1) ∧ n.onsetB = dec4 (3 + 1/3)
+    ∧ ([⟨0, 1, 3, 4⟩, ⟨3, 2, 4, 4⟩] : List TSLine) ≠ [] ∧ ∀ x ∈ ([⟨0, 1, 3, 4⟩, ⟨3, 2, 4, 4⟩] : List TSLine), x.den = 4 :=
+  ⟨{ measure := 2, beat := encBeat 3 4 1 + 1, offset := Frac.ofRat (encOffset 3 4 1), dur := ⟨1, 12, 1⟩, comps := [],
+     onsetB := dec4 (3 + 1/3), offsetB := 0 }, rfl, rfl, rfl, by simp, by simp⟩
+
+/-- the exporter's side of the same statement: with one beat type the beat time of a note, converted to
+    quarters, minus its distance from the bar line is the beat time of the bar line — so the `4·B/den0 − rel₁/divs`
+    of `bars_recovered_partial` IS the written bar start, for every measure, pickup and change of beat count -/
+theorem written_bar_start (sc : Score) (den0 : Nat) (hden : 0 < den0) (hdivs : 0 < sc.divs)
+    (s : TSig) (rest : List TSig) (hts : sc.ts = s :: rest) (huni : ∀ x ∈ sc.ts, x.den = den0) (o ms : Int) :
+    4 * sc.beats o / (den0 : Rat) - ((o - ms : Int) : Rat) / (sc.divs : Rat) = 4 * sc.beats ms / (den0 : Rat) := by
+  unfold Score.beats
+  rw [hts] at huni ⊢
+  rw [C08P.rawBeats_uniform sc.divs den0 rest s huni o, C08P.rawBeats_uniform sc.divs den0 rest s huni ms]
+  have h1 : ((den0 : Nat) : Rat) ≠ 0 := by exact_mod_cast (Nat.pos_iff_ne_zero.mp hden)
+  have h2 : ((sc.divs : Nat) : Rat) ≠ 0 := by exact_mod_cast (Nat.pos_iff_ne_zero.mp hdivs)
+  push_cast
+  field_simp
+  ring
+
+/-- **onset_roundtrip_partial.** (Partial: one beat type, as `bars_recovered_partial`.)  A note `rel` divisions
+    after a bar line whose first stored note is `rel₁` divisions after it with beat time `B` (four decimals in the
+    file); the importer's shift `shiftHat` is the four-decimal image of the true one (`|shiftHat − shiftQ| ≤
+    1/(5000·den0)`: it is `4·dec4(B₀)/den0` for the first note of the piece, or 0).  With importer divisions
+    `D < 1250·den0` and the true position on the grid, the loaded onset is exact. -/
+theorem onset_roundtrip_partial (den0 divs : Nat) (hden : 0 < den0) (hdivs : 0 < divs)
+    (ts : List TSLine) (hts : ts ≠ []) (huni : ∀ x ∈ ts, x.den = den0) (maxTime : Rat)
+    (rel₁ rel : Int) (B : Rat) (n : SNote)
+    (hbeat : n.beat = encBeat divs den0 rel₁ + 1)
+    (hoff : n.offset = Frac.ofRat (encOffset divs den0 rel₁))
+    (hon : n.onsetB = dec4 B)
+    (D : Nat) (hD : (D : Rat) < 1250 * (den0 : Rat)) (shiftHat shiftQ : Rat)
+    (hshift : |shiftHat - shiftQ| ≤ 1 / (5000 * (den0 : Rat))) (z : Int)
+    (hgrid : (D : Rat) * ((4 * B / (den0 : Rat) - (rel₁ : Rat) / (divs : Rat)) + (rel : Rat) / (divs : Rat) - shiftQ) = (z : Rat)) :
+    roundHalfEven ((D : Rat) * notePos (barTime ts maxTime n) (encBeat divs den0 rel + 1) den0
+        (Frac.ofRat (encOffset divs den0 rel)).val shiftHat) = z := by
+  have hbar := (bars_recovered_partial den0 divs hden hdivs ts hts huni maxTime rel₁ B n hbeat hoff hon).1
+  apply position_roundtrip D divs den0 hdivs hden rel (barTime ts maxTime n) shiftHat
+    (4 * B / (den0 : Rat) - (rel₁ : Rat) / (divs : Rat)) shiftQ z hgrid
+  have hd0 : (0 : Rat) < (den0 : Rat) := by exact_mod_cast hden
+  have hDnn : (0 : Rat) ≤ (D : Rat) := by positivity
+  have htri : |barTime ts maxTime n - shiftHat - (4 * B / (den0 : Rat) - (rel₁ : Rat) / (divs : Rat) - shiftQ)|
+      ≤ 1 / (5000 * (den0 : Rat)) + 1 / (5000 * (den0 : Rat)) := by
+    have e : barTime ts maxTime n - shiftHat - (4 * B / (den0 : Rat) - (rel₁ : Rat) / (divs : Rat) - shiftQ)
+        = (barTime ts maxTime n - (4 * B / (den0 : Rat) - (rel₁ : Rat) / (divs : Rat))) - (shiftHat - shiftQ) := by ring
+    rw [e]
+    exact (abs_sub _ _).trans (add_le_add hbar hshift)
+  have hpos5 : (0 : Rat) < 1 / (5000 * (den0 : Rat)) := div_pos one_pos (by linarith)
+  calc (D : Rat) * |barTime ts maxTime n - shiftHat - (4 * B / (den0 : Rat) - (rel₁ : Rat) / (divs : Rat) - shiftQ)|
+        ≤ (D : Rat) * (1 / (5000 * (den0 : Rat)) + 1 / (5000 * (den0 : Rat))) := mul_le_mul_of_nonneg_left htri hDnn
+    _ < (1250 * (den0 : Rat)) * (1 / (5000 * (den0 : Rat)) + 1 / (5000 * (den0 : Rat))) :=
+        mul_lt_mul_of_pos_right hD (by linarith)
+    _ = 1 / 2 := by field_simp; ring
+
+/-! ### performed notes -/
+
+/-- **ticks_seconds.** The tick written for a time in seconds is the nearest tick (ties to even), the seconds
+    read back are that tick on the file's clock, and a second write/read cycle changes nothing. -/
+theorem ticks_seconds (t : Rat) (mpq ppq : Nat) (hm : 0 < mpq) (hp : 0 < ppq) :
+    |((perfRoundTrip mpq ppq t).1 : Rat) - 1000000 * (ppq : Rat) * t / (mpq : Rat)| ≤ 1 / 2
+    ∧ (perfRoundTrip mpq ppq t).2 = tickToSec (perfRoundTrip mpq ppq t).1 mpq ppq
+    ∧ perfRoundTrip mpq ppq (perfRoundTrip mpq ppq t).2 = perfRoundTrip mpq ppq t := by
+  refine ⟨Round.roundHalfEven_close _, rfl, ?_⟩
+  have hfix : secToTick (tickToSec (secToTick t mpq ppq) mpq ppq) mpq ppq = secToTick t mpq ppq := by
+    unfold secToTick tickToSec
+    have h1 : ((mpq : Nat) : Rat) ≠ 0 := by exact_mod_cast (Nat.pos_iff_ne_zero.mp hm)
+    have h2 : ((ppq : Nat) : Rat) ≠ 0 := by exact_mod_cast (Nat.pos_iff_ne_zero.mp hp)
+    have : 1000000 * (ppq : Rat) * ((mpq : Rat) * ((roundHalfEven (1000000 * (ppq : Rat) * t / (mpq : Rat)) : Int) : Rat)
+        / (1000000 * (ppq : Rat))) / (mpq : Rat) = ((roundHalfEven (1000000 * (ppq : Rat) * t / (mpq : Rat)) : Int) : Rat) := by
+      field_simp
+    rw [this, Round.roundHalfEven_int]
+  unfold perfRoundTrip
+  simp only [hfix]
 
 end C08
